@@ -311,6 +311,59 @@ func subMeta(out string, seed uint64, tier string, arg string) {
 		}
 	}
 	rep.Extra["profiles"] = len(lint.AllProfiles())
+	// ---- C12: names unique across kinds and sorted; lookups agree; every listed name resolves in exactly one kind
+	names := g.Names()
+	for i := 1; i < len(names); i++ {
+		if names[i-1] >= names[i] {
+			what := "Names() is not strictly sorted"
+			if names[i-1] == names[i] {
+				what = "lint name " + names[i] + " is registered more than once (across kinds)"
+			}
+			rep.violate(Violation{"C12", what + " at " + names[i], "names-order:" + names[i], map[string]interface{}{"prev": names[i-1], "name": names[i]}})
+		}
+	}
+	kindOf := map[string]int{}
+	for _, l := range g.CertificateLints().Lints() {
+		kindOf[l.Name]++
+		if g.CertificateLints().ByName(l.Name) != l {
+			rep.violate(Violation{"C12", "certificate lint " + l.Name + " is not what ByName returns for its name", "byname:" + l.Name, map[string]interface{}{"name": l.Name}})
+		}
+	}
+	for _, l := range g.RevocationListLints().Lints() {
+		kindOf[l.Name]++
+		if g.RevocationListLints().ByName(l.Name) != l {
+			rep.violate(Violation{"C12", "CRL lint " + l.Name + " is not what ByName returns for its name", "byname:" + l.Name, map[string]interface{}{"name": l.Name}})
+		}
+	}
+	for _, l := range g.OcspResponseLints().Lints() {
+		kindOf[l.Name]++
+		if g.OcspResponseLints().ByName(l.Name) != l {
+			rep.violate(Violation{"C12", "OCSP lint " + l.Name + " is not what ByName returns for its name", "byname:" + l.Name, map[string]interface{}{"name": l.Name}})
+		}
+	}
+	for n, c := range kindOf {
+		if c != 1 {
+			rep.violate(Violation{"C12", fmt.Sprintf("lint name %s is registered %d times", n, c), "dup:" + n, map[string]interface{}{"name": n}})
+		}
+	}
+	if len(kindOf) != len(names) {
+		rep.violate(Violation{"C12", fmt.Sprintf("Names() lists %d names for %d registered lints", len(names), len(kindOf)), "names-count", map[string]interface{}{}})
+	}
+	for _, n := range names {
+		if kindOf[n] == 0 {
+			rep.violate(Violation{"C12", "Names() lists " + n + " which no lookup holds", "phantom:" + n, map[string]interface{}{"name": n}})
+		}
+	}
+	// listing / filtering after a first use must give the same answer (lookups must not be corrupted by reads)
+	names2 := g.Names()
+	if strings.Join(names, ",") != strings.Join(names2, ",") {
+		rep.violate(Violation{"C12", "Names() changes between two calls", "names-unstable", map[string]interface{}{}})
+	}
+	kn := append(append(append([]string{}, g.CertificateLints().Names()...), g.RevocationListLints().Names()...), g.OcspResponseLints().Names()...)
+	sort.Strings(kn)
+	if strings.Join(kn, ",") != strings.Join(names2, ",") {
+		rep.violate(Violation{"C12", "the per-kind name lists do not add up to Names()", "kind-names", map[string]interface{}{}})
+	}
 	// unknown names / sources must be rejected
 	for i := 0; i < 300; i++ {
 		n := fmt.Sprintf("e_unknown_%x", rng.Next()&0xffffff)
